@@ -67,6 +67,51 @@ theorem order_prefix (pre s : List Item) (x : Item) : ltKey pre (pre ++ x :: s) 
     simp only [List.cons_append, ltKey, cmpKey, cmpItem_self, ne_eq, not_true_eq_false, if_false]
     exact ih
 
+/-- a name is split into sort items at exactly the separator characters the translator read from
+`BranchName._mk_sort_items` (and the blank they are replaced by): … these and no others are separators, … -/
+theorem order_separators (c : Char) : isSep c = true ↔ c ∈ Gen.Ghist.seps ∨ c = ' ' := by
+  simp [isSep]
+
+/-- … a word (a non-empty run of non-separators) followed by a separator is one item, whatever follows, … -/
+theorem order_split_at_separator (w : List Char) (hne : w ≠ []) (hw : ∀ c ∈ w, isSep c = false) (c : Char)
+    (hc : isSep c = true) (rest : List Char) : branchKey (w ++ c :: rest) = mkItem w :: branchKey rest := by
+  unfold branchKey
+  rw [splitItems_word w hw c hc rest [] (Or.inl hne)]
+  simp
+
+/-- … a separator at the start (or after another separator) makes no item, … -/
+theorem order_split_skip (c : Char) (hc : isSep c = true) (rest : List Char) :
+    branchKey (c :: rest) = branchKey rest := by
+  simp [branchKey, splitItems, hc]
+
+/-- … and a word is not split anywhere else -/
+theorem order_split_word (w : List Char) (hne : w ≠ []) (hw : ∀ c ∈ w, isSep c = false) :
+    branchKey w = [mkItem w] := by
+  have : ∀ (w cur : List Char), (∀ c ∈ w, isSep c = false) → (w ≠ [] ∨ cur ≠ []) →
+      splitItems w cur = [cur.reverse ++ w] := by
+    intro w
+    induction w with
+    | nil =>
+      intro cur _ h
+      have hc : cur ≠ [] := by rcases h with h | h; exact absurd rfl h; exact h
+      have : cur.isEmpty = false := by cases cur <;> simp_all
+      simp [splitItems, this]
+    | cons x w ih =>
+      intro cur hw _
+      have hx : isSep x = false := hw x (by simp)
+      simp only [splitItems, hx, Bool.false_eq_true, if_false]
+      rw [ih (x :: cur) (fun c hc => hw c (by simp [hc])) (Or.inr (by simp))]
+      simp
+  unfold branchKey
+  rw [this w [] hw (Or.inl hne)]
+  simp
+
+example : ltKey (branchKey "origin/release/abc-9.1".toList) (branchKey "origin/release/abc-10.1".toList) = true := by
+  decide
+example : ltKey (branchKey "origin/release/5.9".toList) (branchKey "origin/release/5.10".toList) = true := by decide
+example : ltKey (branchKey "origin/release/v_9".toList) (branchKey "origin/release/v_10".toList) = true := by decide
+example : ltKey (branchKey "origin/release/9/x".toList) (branchKey "origin/release/10/x".toList) = true := by decide
+
 /-- the sort items of a name are what the docstring of `BranchName` says -/
 example : branchKey "origin/release/10.250".toList =
     [.str "origin".toList, .str "release".toList, .int 10, .int 250] := by decide
@@ -134,6 +179,22 @@ theorem tag_saved_version (ds w : List Char) (hd : Digits ds) (hw : parseBranchS
 theorem tag_ignored (saved : Option (Nat × Nat)) (s : List Char)
     (h : (¬ ∃ r, s = Gen.Ghist.tagPre ++ r) ∨ (¬ ∃ r, s = r ++ Gen.Ghist.tagSuf)) : tagBN saved s = .ok none :=
   tagBN_ignored saved s h
+
+/-! ## C06.match — which commits match
+
+The driver computes the match flag of a commit with `occursIn text message` (the model of the predicate in
+`ProjectRepo.build_report_rgraph`). -/
+
+/-- a commit matches exactly when the search text occurs in its message as a contiguous piece: the text is taken as
+given (nothing stripped, no case folding, no pattern syntax, line breaks are ordinary characters) -/
+theorem match_is_substring (text msg : List Char) :
+    occursIn text msg = true ↔ ∃ a b, msg = a ++ text ++ b := occursIn_iff text msg
+
+example : occursIn "BUG-1 ".toList "BUG-10 fix".toList = false := by decide
+example : occursIn "BUG-1 ".toList "the BUG-1 fix".toList = true := by decide
+example : occursIn "bug-1".toList "BUG-1 fix".toList = false := by decide
+example : occursIn "a.b".toList "axb".toList = false := by decide
+example : occursIn "".toList "anything".toList = true := by decide
 
 example : tagBN none "build_4154_release_10_240_success".toList = .ok (some ⟨10, 240, 4154, 4154⟩) := by decide
 example : tagBN (some (10, 250)) "build_4155_master_success".toList = .ok (some ⟨10, 250, 4155, 4155⟩) := by decide
